@@ -540,8 +540,19 @@ func runSeq(p *DPlan, system string, keepLog bool, prefix string) seqResult {
 						}
 						res.probes = addProbe(res.probes, "scribble_after_read")
 					} else if op.Kind == "read" && p.Batch == "seq" {
+						older := held
 						held, heldCopy, heldAt = b, append([]byte(nil), b...), oi
 						res.probes = addProbe(res.probes, "held_read_result")
+						if older != nil && cap(older) > len(older) {
+							// the caller appends to the slice an earlier Read gave
+							// it: spare capacity must not be memory that belongs to
+							// anyone else (checked through the slice now held)
+							spare := older[len(older):cap(older)]
+							for i := range spare {
+								spare[i] = 0xC3
+							}
+							res.probes = addProbe(res.probes, "append_into_spare_capacity_of_read_result")
+						}
 					}
 				}
 				if p.Batch == "seq" && !checkHeld(oi) {
